@@ -85,56 +85,73 @@ func ruleF2(c *Ctx) {
 	c.rule("F2", "fatal classification: isFatalError returns true for errors that are (errors.Is) ttrpc.ErrClosed, ttrpc.ErrServerClosed, ttrpc.ErrProtocol and context.DeadlineExceeded — the property's disconnect / protocol / timeout faults", 4)
 	f := m.fn(pkgAdapt, "isFatalError")
 	got := map[string]bool{}
-	for _, ci := range calls(f) {
-		g := m.callee(ci.Common())
-		if g == nil || g.String() != "errors.Is" {
-			continue
+	// sentinelTest: v is errors.Is(<the parameter>, <sentinel error variable>)
+	sentinelTest := func(v ssa.Value) string {
+		call, ok := v.(*ssa.Call)
+		if !ok {
+			return ""
 		}
-		call, ok := ci.(*ssa.Call)
-		if !ok || call.Call.Args[0] != ssa.Value(f.Params[0]) {
-			continue
+		if g := m.callee(call.Common()); g == nil || g.String() != "errors.Is" || call.Call.Args[0] != ssa.Value(f.Params[0]) {
+			return ""
 		}
-		tgt := call.Call.Args[1]
-		if u, ok := tgt.(*ssa.UnOp); ok {
+		if u, ok := call.Call.Args[1].(*ssa.UnOp); ok {
 			if gl, ok := u.X.(*ssa.Global); ok {
-				// the true branch returns true
-				for _, r := range *call.Referrers() {
-					if iff, ok := r.(*ssa.If); ok {
-						t := iff.Block().Succs[0]
-						if ret, ok := t.Instrs[len(t.Instrs)-1].(*ssa.Return); ok && isConstBool(ret.Results[0], true) {
-							got[gl.Pkg.Pkg.Path()+"."+gl.Name()] = true
-						}
-					}
-				}
+				return gl.Pkg.Pkg.Path() + "." + gl.Name()
 			}
 		}
+		return ""
 	}
-	// nothing else is fatal: every `return true` is the true branch of an errors.Is test of the
-	// relay's error against a sentinel error variable (a handler's own error must veto the request)
+	// the result is decided by sentinel tests only: every source of the returned value is the constant
+	// false, a sentinel test itself (`a || b` chains), or the constant true on an edge taken only when a
+	// sentinel test held (a handler's own error must veto the request, not drop the plugin)
+	type src struct {
+		v    ssa.Value
+		from *ssa.BasicBlock // block the value flows out of
+		to   *ssa.BasicBlock
+	}
+	var sources func(v ssa.Value, from, to *ssa.BasicBlock, seen map[ssa.Value]bool) []src
+	sources = func(v ssa.Value, from, to *ssa.BasicBlock, seen map[ssa.Value]bool) []src {
+		if phi, ok := v.(*ssa.Phi); ok {
+			if seen[v] {
+				return nil
+			}
+			seen[v] = true
+			var out []src
+			for i, e := range phi.Edges {
+				out = append(out, sources(e, phi.Block().Preds[i], phi.Block(), seen)...)
+			}
+			return out
+		}
+		return []src{{v, from, to}}
+	}
 	nTrue := 0
 	for _, r := range returnsOf(f) {
-		for _, v := range returnValues(r, 0) {
-			if !isConstBool(v, true) {
-				if _, isC := v.(*ssa.Const); !isC {
-					c.violate("F2", "only-sentinels/computed", r.Pos(), "isFatalError is decided by sentinel tests only", "isFatalError returns a computed value")
-				}
+		for _, s := range sources(r.Results[0], r.Block(), nil, map[ssa.Value]bool{}) {
+			if isConstBool(s.v, false) {
+				continue
+			}
+			if w := sentinelTest(s.v); w != "" {
+				got[w] = true
+				continue
+			}
+			if !isConstBool(s.v, true) {
+				c.violate("F2", "only-sentinels/computed", r.Pos(), "isFatalError is decided by sentinel tests only", "isFatalError returns a computed value ("+s.v.String()+")")
 				continue
 			}
 			nTrue++
+			conds := controls(s.from)
+			if iff := lastIf(s.from); iff != nil && s.to != nil && s.from.Succs[0] != s.from.Succs[1] {
+				conds = append(conds, Cond{V: iff.Cond, Pol: s.from.Succs[0] == s.to, If: iff})
+			}
 			okS := false
-			for _, cd := range controls(r.Block()) {
+			for _, cd := range conds {
 				cd = normCond(cd)
-				if call, ok := cd.V.(*ssa.Call); ok && cd.Pol {
-					if g := m.callee(call.Common()); g != nil && g.String() == "errors.Is" && call.Call.Args[0] == ssa.Value(f.Params[0]) {
-						if u, ok := call.Call.Args[1].(*ssa.UnOp); ok {
-							if _, isG := u.X.(*ssa.Global); isG {
-								okS = true
-							}
-						}
-					}
+				if w := sentinelTest(cd.V); w != "" && cd.Pol {
+					okS = true
+					got[w] = true
 				}
 			}
-			c.ok("F2", fmt.Sprintf("only-sentinels#%d", nTrue), r.Pos(), okS, "this `return true` of isFatalError is the true branch of errors.Is(err, <sentinel>)",
+			c.ok("F2", fmt.Sprintf("only-sentinels#%d", nTrue), r.Pos(), okS, "this `true` result of isFatalError is reached only when errors.Is(err, <sentinel>) held",
 				"an error is classified as fatal by something other than errors.Is against a sentinel (e.g. a status code that a plugin's handler can return): such a handler error drops the plugin and lets the request continue instead of vetoing it")
 		}
 	}
@@ -146,7 +163,7 @@ func ruleF2(c *Ctx) {
 // relayErrShape describes how a relay handles the RPC error.
 type relayErrShape struct {
 	fatalCloses, fatalReturnsNil, nonFatalReturnsErr, replyNil bool
-	detail                                                       string
+	detail                                                     string
 }
 
 func ruleF3(c *Ctx) {
@@ -164,7 +181,6 @@ func ruleF3(c *Ctx) {
 		}
 		_ = g
 		ev := errResult(call)
-		nres := f.Signature.Results().Len()
 		bad := ""
 		tests := nilTestsOf(ev)
 		// the error may first be stored in a named result; follow loads of the alloc
@@ -184,89 +200,153 @@ func ruleF3(c *Ctx) {
 		if len(tests) == 0 {
 			bad = "the RPC error is not tested"
 		}
-		for _, t := range tests {
-			fb := t.NonNil
-			// find isFatalError(err) test in the failing region
-			var fatalIf *ssa.If
-			for _, b := range f.Blocks {
-				if !fb.Dominates(b) {
-					continue
-				}
-				for _, in := range b.Instrs {
-					if cl, ok := in.(*ssa.Call); ok && m.callee(cl.Common()) == isFatal {
-						for _, r := range *cl.Referrers() {
-							if iff, ok := r.(*ssa.If); ok {
-								fatalIf = iff
-							}
+		evIs := func(v ssa.Value) bool {
+			if v == ev || derivedFrom(v, ev) {
+				return true
+			}
+			if ld, ok := v.(*ssa.UnOp); ok {
+				if al, ok := ld.X.(*ssa.Alloc); ok {
+					for _, s := range storesTo(al) {
+						if s.(*ssa.Store).Val == ev {
+							return true
 						}
 					}
 				}
 			}
-			if fatalIf == nil {
-				bad = "the failing branch does not classify the error with isFatalError: transport failures veto the request (or handler errors are swallowed)"
+			return false
+		}
+		for _, t := range tests {
+			if b := fatalTail(m, f, t.NonNil, evIs, f.Params[0], isFatal, closeM); b != "" {
+				bad = b
+			}
+		}
+		c.ok("F3", f.Name(), call.Pos(), bad == "", what, bad)
+	}
+}
+
+// fatalTail checks the region of f dominated by fb (the branch on which the relayed call failed):
+// the error is classified with isFatalError; on the fatal side the plugin recv is closed and only
+// nil/zero values are returned; on the other side the error itself is returned next to nil replies.
+// The classification may be delegated to a helper of the same shape (called with the error and the
+// same plugin) whose result is returned as the error.
+func fatalTail(m *Module, f *ssa.Function, fb *ssa.BasicBlock, evIs func(ssa.Value) bool, recv ssa.Value, isFatal, closeM *ssa.Function) string {
+	nres := f.Signature.Results().Len()
+	bad := ""
+	var fatalIf *ssa.If
+	for _, b := range f.Blocks {
+		if !fb.Dominates(b) {
+			continue
+		}
+		if iff := lastIf(b); iff != nil {
+			if cl, ok := normCond(Cond{V: iff.Cond, Pol: true}).V.(*ssa.Call); ok && m.callee(cl.Common()) == isFatal {
+				fatalIf = iff
+			}
+		}
+	}
+	if fatalIf == nil {
+		// delegation: every return of the failing region returns h(…, err, …) as its error, h having the shape itself
+		delegated := 0
+		for _, r := range returnsOf(f) {
+			if !fb.Dominates(r.Block()) {
 				continue
 			}
-			fatalB, otherB := fatalIf.Block().Succs[0], fatalIf.Block().Succs[1]
-			// fatal branch: calls p.close() on the receiver, returns all nil
-			closed := false
-			for _, b := range f.Blocks {
-				if !fatalB.Dominates(b) {
+			okD := false
+			for _, v := range returnValues(r, nres-1) {
+				hc, ok := v.(*ssa.Call)
+				if !ok {
 					continue
 				}
-				for _, in := range b.Instrs {
-					if cl, ok := in.(*ssa.Call); ok && m.callee(cl.Common()) == closeM && cl.Call.Args[0] == ssa.Value(f.Params[0]) {
-						closed = true
+				h := m.callee(hc.Common())
+				if h == nil || h.Pkg == nil || h.Pkg.Pkg.Path() != pkgAdapt || len(h.Blocks) == 0 || h == f {
+					continue
+				}
+				ei, ri := -1, -1
+				for i, a := range hc.Call.Args {
+					if evIs(a) {
+						ei = i
+					}
+					if a == recv {
+						ri = i
+					}
+				}
+				if ei < 0 || ri < 0 {
+					continue
+				}
+				hev := ssa.Value(h.Params[ei])
+				if b := fatalTail(m, h, h.Blocks[0], func(v ssa.Value) bool { return v == hev || derivedFrom(v, hev) }, h.Params[ri], isFatal, closeM); b != "" {
+					return b + " (in " + funcKey(h) + ")"
+				}
+				okD = true
+			}
+			if !okD {
+				return "the failing branch does not classify the error with isFatalError: transport failures veto the request (or handler errors are swallowed)"
+			}
+			delegated++
+			for i := 0; i < nres-1; i++ {
+				for _, v := range returnValues(r, i) {
+					if !isNilConst(v) && !isZeroConst(v) {
+						return "the failing branch returns a reply next to the error"
 					}
 				}
 			}
-			if !closed {
-				bad = "the fatal branch does not close the plugin: it keeps receiving requests"
+		}
+		if delegated == 0 {
+			return "the failing branch does not classify the error with isFatalError: transport failures veto the request (or handler errors are swallowed)"
+		}
+		return ""
+	}
+	fatalB, otherB := fatalIf.Block().Succs[0], fatalIf.Block().Succs[1]
+	if cd := normCond(Cond{V: fatalIf.Cond, Pol: true}); !cd.Pol {
+		fatalB, otherB = otherB, fatalB
+	}
+	closed := false
+	for _, b := range f.Blocks {
+		if !fatalB.Dominates(b) {
+			continue
+		}
+		for _, in := range b.Instrs {
+			if cl, ok := in.(*ssa.Call); ok && m.callee(cl.Common()) == closeM && cl.Call.Args[0] == recv {
+				closed = true
 			}
-			for _, r := range returnsOf(f) {
-				if fatalB.Dominates(r.Block()) {
-					for i := 0; i < nres; i++ {
-						for _, v := range returnValues(r, i) {
-							if !isNilConst(v) && !isZeroConst(v) {
-								if i == nres-1 {
-									bad = "the fatal branch returns an error: a disconnected or timed-out plugin fails the whole request"
-								} else {
-									bad = "the fatal branch returns a reply"
-								}
-							}
-						}
-					}
-				}
-				if otherB.Dominates(r.Block()) {
-					okE := false
-					for _, v := range returnValues(r, nres-1) {
-						if v == ev || derivedFrom(v, ev) {
-							okE = true
-						}
-						if ld, ok := v.(*ssa.UnOp); ok {
-							if al, ok := ld.X.(*ssa.Alloc); ok {
-								for _, s := range storesTo(al) {
-									if s.(*ssa.Store).Val == ev {
-										okE = true
-									}
-								}
-							}
-						}
-					}
-					if !okE {
-						bad = "the non-fatal branch does not return the handler's error: a handler error does not veto the request"
-					}
-					for i := 0; i < nres-1; i++ {
-						for _, v := range returnValues(r, i) {
-							if !isNilConst(v) && !isZeroConst(v) {
-								bad = "the non-fatal branch returns a reply next to the error"
-							}
+		}
+	}
+	if !closed {
+		bad = "the fatal branch does not close the plugin: it keeps receiving requests"
+	}
+	for _, r := range returnsOf(f) {
+		if fatalB.Dominates(r.Block()) {
+			for i := 0; i < nres; i++ {
+				for _, v := range returnValues(r, i) {
+					if !isNilConst(v) && !isZeroConst(v) {
+						if i == nres-1 {
+							bad = "the fatal branch returns an error: a disconnected or timed-out plugin fails the whole request"
+						} else {
+							bad = "the fatal branch returns a reply"
 						}
 					}
 				}
 			}
 		}
-		c.ok("F3", f.Name(), call.Pos(), bad == "", what, bad)
+		if otherB.Dominates(r.Block()) {
+			okE := false
+			for _, v := range returnValues(r, nres-1) {
+				if evIs(v) {
+					okE = true
+				}
+			}
+			if !okE {
+				bad = "the non-fatal branch does not return the handler's error: a handler error does not veto the request"
+			}
+			for i := 0; i < nres-1; i++ {
+				for _, v := range returnValues(r, i) {
+					if !isNilConst(v) && !isZeroConst(v) {
+						bad = "the non-fatal branch returns a reply next to the error"
+					}
+				}
+			}
+		}
 	}
+	return bad
 }
 
 func storesTo(al *ssa.Alloc) []ssa.Instruction {
@@ -509,7 +589,7 @@ func ruleF7(c *Ctx) {
 // ruleF8: errors crossing the multiplexer keep their cause chain.
 func ruleF8(c *Ctx) {
 	m := c.M
-	c.rule("F8", "cause chain preserved: every fmt.Errorf in the multiplexer that embeds an error value wraps it with %w, so that ttRPC and isFatalError (errors.Is) still recognise a closed connection or a deadline behind the mux's own message", 4)
+	c.rule("F8", "cause chain preserved: every fmt.Errorf in the multiplexer that embeds an error value wraps it with %w, so that ttRPC and isFatalError (errors.Is) still recognise a closed connection or a deadline behind the mux's own message", 1)
 	n := 0
 	for _, f := range m.funcsInPkg(pkgMux) {
 		for _, ci := range calls(f) {
